@@ -32,6 +32,7 @@ func init() {
 
 type parserFns struct {
 	atom, canAtom, seq, choice, parse, found, is, expect, back, eof, tokenFn *ssa.Function
+	kinds                                                                    []string // the declared token kinds
 }
 
 func (c *Ctx) parserFns() *parserFns {
@@ -44,6 +45,10 @@ func (c *Ctx) parserFns() *parserFns {
 			return nil
 		}
 	}
+	for k := range declaredKinds(c) {
+		p.kinds = append(p.kinds, k)
+	}
+	sort.Strings(p.kinds)
 	return p
 }
 
@@ -145,6 +150,31 @@ func (p *parserFns) tests(fn *ssa.Function) []tokTest {
 		}
 		k, _ := kindArg(cv)
 		out = append(out, tokTest{cond: cv, kind: k, consumes: f == p.found, instr: cv})
+	}
+	// a predicate on the current token's kind (a method of the kind type, a table lookup behind a
+	// function): tabulated over the declared kinds
+	for _, call := range ir.Calls(fn) {
+		cv, ok := call.(*ssa.Call)
+		if !ok || len(cv.Call.Args) != 1 || !p.isCurrentTokenTyp(cv.Call.Args[0]) {
+			continue
+		}
+		g := ir.Static(cv)
+		if g == nil || g == p.found || g == p.is || len(g.Blocks) == 0 {
+			continue
+		}
+		if b, isB := g.Signature.Results().At(0).Type().Underlying().(*types.Basic); g.Signature.Results().Len() != 1 || !isB || b.Kind() != types.Bool {
+			continue
+		}
+		for _, k := range p.kinds {
+			r, okR := evalBytePred(g, []constant.Value{constant.MakeString(k)}, 0)
+			if !okR {
+				out = append(out, tokTest{cond: cv, kind: "", instr: cv})
+				break
+			}
+			if r {
+				out = append(out, tokTest{cond: cv, kind: k, instr: cv})
+			}
+		}
 	}
 	ir.Instrs(fn, func(in ssa.Instruction) {
 		bo, ok := in.(*ssa.BinOp)
@@ -460,6 +490,12 @@ func tableKinds(c *Ctx, v ssa.Value) ([]string, bool) {
 	case *ssa.Global:
 		g = t
 	}
+	return globalTableStrings(c, g)
+}
+
+// globalTableStrings: the constant strings the package initialiser puts into the package-level array or
+// slice g, which is only read afterwards.
+func globalTableStrings(c *Ctx, g *ssa.Global) ([]string, bool) {
 	if g == nil || readOnlyTable(c, g) != "" {
 		return nil, false
 	}
